@@ -266,6 +266,15 @@ fn from_limbs(x: &[Limb]) -> Vec<u64> {
 /// Native limbs per 64-bit limb of the harness model.
 const RATIO: usize = 64 / bigint::LIMB_BITS;
 
+/// One model element = one native limb (vector histories, C13).
+fn to_native(x: &[u64]) -> Vec<Limb> {
+    x.iter().map(|&l| l as Limb).collect()
+}
+
+fn from_native(x: &[Limb]) -> Vec<u64> {
+    x.iter().map(|&l| l as u64).collect()
+}
+
 fn vec_from(x: &[u64]) -> Option<VecType> {
     VecType::try_from(&to_limbs(x))
 }
@@ -383,7 +392,7 @@ fn observe_pair(ret: i64, a: &VecType, b: &VecType) -> VecObs {
     VecObs {
         ret,
         popped: None,
-        a: from_limbs(a),
+        a: from_native(a),
         len: a.len(),
         is_empty: a.is_empty(),
         capacity: a.capacity(),
@@ -392,7 +401,7 @@ fn observe_pair(ret: i64, a: &VecType, b: &VecType) -> VecObs {
         eq_ab: a == b,
         cmp_ab: a.cmp(b),
         partial_cmp_ab: a.partial_cmp(b),
-        b: from_limbs(b),
+        b: from_native(b),
     }
 }
 
@@ -417,7 +426,7 @@ fn vec_history_inner(ops: &[VecOp]) -> Vec<VecObs> {
                 a = VecType::new();
                 1
             }
-            VecOp::TryFrom(x) => match VecType::try_from(&to_limbs(x)) {
+            VecOp::TryFrom(x) => match VecType::try_from(&to_native(x)) {
                 Some(v) => {
                     a = v;
                     1
@@ -429,7 +438,7 @@ fn vec_history_inner(ops: &[VecOp]) -> Vec<VecObs> {
                 popped = a.pop().map(|l| l as u64);
                 popped.is_some() as i64
             }
-            VecOp::Extend(x) => a.try_extend(&to_limbs(x)).is_some() as i64,
+            VecOp::Extend(x) => a.try_extend(&to_native(x)).is_some() as i64,
             VecOp::Resize(n, v) => a.try_resize(*n, *v as Limb).is_some() as i64,
             VecOp::Normalize => {
                 a.normalize();
